@@ -100,6 +100,7 @@ pub struct Chip127x {
     pub op_starts: Vec<OpStart>,
     pub tx_payloads: Vec<Vec<u8>>,
     pub losses: u32,
+    pub last_loss: &'static str,
     pub keep_transcript: bool,
 }
 
@@ -126,6 +127,7 @@ impl Chip127x {
             op_starts: Vec::new(),
             tx_payloads: Vec::new(),
             losses: 0,
+            last_loss: "reset",
             keep_transcript: true,
         };
         c.power_on_defaults();
@@ -133,8 +135,17 @@ impl Chip127x {
         c
     }
 
+    /// A cold sleep requested through the driver's API: the registers keep their values on this family,
+    /// but nothing counts as programmed since then.
+    pub fn mark_cold_sleep(&mut self) {
+        self.losses += 1;
+        self.last_loss = "cold-sleep";
+        self.written = [false; 128];
+    }
+
     fn power_on_defaults(&mut self) {
         self.losses += 1;
+        self.last_loss = "reset";
         self.regs = [0; 128];
         self.written = [false; 128];
         let r = &mut self.regs;
